@@ -575,8 +575,9 @@ theorem aliasableSites_eq : aliasableSites =
      .resolveModuleName] := by
   decide
 
-/-- the two sites that hand out a cached mutable object are not public: `_strload` (behind
-    `strload`), `static_order` and `cached_type_hints` (read by the routines only) -/
+/-- the three sites that hand out a cached mutable object are not reached by an operation of the
+    property: `_strload` (behind `strload`), `static_order` and `cached_type_hints` (read by the
+    routines only; the harness checks that they are not mutated by their callers) -/
 theorem shared_mutable_sites_are_internal :
     RealSite.all.filter (fun s => !(classify s).freshOrImmutable) = [.strloadRaw, .staticOrder, .cachedTypeHints] ∧
     ∀ s ∈ RealSite.all, (classify s).freshOrImmutable = false → (classify s).«public» = false := by
